@@ -33,7 +33,10 @@ def main():
     pid, src = sys.argv[1], sys.argv[2]
     tier = "quick"
     also = []
+    tag = ""
     for i, a in enumerate(sys.argv):
+        if a == "--tag":
+            tag = sys.argv[i + 1]
         if a == "--tier":
             tier = sys.argv[i + 1]
         if a == "--also":
@@ -60,13 +63,16 @@ def main():
                 checks[c] = {"exit": rc, "caught": rc == 1 and bool(viol), "violations": [v[:300] for v in viol[:4]], "wall_s": round(time.time() - t0, 1),
                              "tail": out.splitlines()[-1][:200] if out.splitlines() else ""}
             valid = rc_clean == 0 and rc_apply == 0 and rc_tests == 0 and rc_demo != 0
-            dst = os.path.join(VERIF, "seeded", "%s-%s" % (pid, name))
+            dst = os.path.join(VERIF, "seeded", "%s-%s%s" % (pid, tag, name))
             os.makedirs(dst, exist_ok=True)
             shutil.copy(os.path.join(src, d), os.path.join(dst, "patch.diff"))
             if os.path.exists(demo):
                 shutil.copy(demo, os.path.join(dst, "demo.py"))
+            prev = {}
+            if os.path.exists(os.path.join(dst, "meta.json")):
+                prev = json.load(open(os.path.join(dst, "meta.json")))
             meta = {
-                "property": pid, "mutant": name, "origin": "independent sub-agent given only the property text and a scratch worktree",
+                "property": pid, "mutant": tag + name, "origin": "independent sub-agent given only the property text and a scratch worktree",
                 "valid": valid,
                 "confirmed": {"demo_passes_on_clean_tree": rc_clean == 0, "patch_applies": rc_apply == 0,
                               "pinned_suite_passes_with_patch": rc_tests == 0, "demo_fails_with_patch": rc_demo != 0,
@@ -77,8 +83,15 @@ def main():
                 "checks": checks,
                 "caught_by": [c for c in checks if checks[c]["caught"]],
             }
+            # keep the history of evaluations: a change first missed and caught after the checks were strengthened stays visible
+            hist = prev.get("history", [])
+            if prev:
+                hist.append({"verif_commit": prev.get("verif_commit"), "caught_by": prev.get("caught_by")})
+            meta["history"] = hist
+            rc, out = sh("git -C %s rev-parse --short HEAD" % VERIF)
+            meta["verif_commit"] = out.strip()
             json.dump(meta, open(os.path.join(dst, "meta.json"), "w"), indent=1)
-            print("%s-%s valid=%s caught_by=%s %s" % (pid, name, valid, meta["caught_by"], "" if valid else "(clean %s apply %s tests %s demo %s)" % (rc_clean, rc_apply, rc_tests, rc_demo)))
+            print("%s-%s%s valid=%s caught_by=%s %s" % (pid, tag, name, valid, meta["caught_by"], "" if valid else "(clean %s apply %s tests %s demo %s)" % (rc_clean, rc_apply, rc_tests, rc_demo)))
             for c in checks:
                 for v in checks[c]["violations"][:1]:
                     print("    ", v[:220])
